@@ -124,7 +124,25 @@ def run_well_typed(ck, cases, tag="wt"):
     return n
 
 
+def default_rows():
+    """A builder value can only come into being in the INITIAL type-state: `Default` (what `builder()`
+    is made of) exists for the builder whose type-state parameters are all `()` and for no other -
+    otherwise `build()` could be called on a builder nothing was ever supplied to."""
+    B = "push::push_vm::push_state::PushStateBuilder"
+    M = "push::push_vm::push_state::push_state::WithSizeAndData"
+    S = "push::push_vm::push_state::push_state::WithSize"
+    mk = lambda rid, params, legal, what: {
+        "id": rid, "kind": "push", "legal": legal, "prefix": [], "state": {"ts": what},
+        "call": {"k": "default", "s": "", "n": 0, "xs": [], "name": ""},
+        "raw": f"let _b = <{B}<{', '.join(params)}> as Default>::default();"}
+    return [mk("D0", ["()"] * 5, True, "initial"),
+            mk("D1", [M, M, S, S, S], False, "complete (the one build() is defined for)"),
+            mk("D2", [M, "()", "()", "()", "()"], False, "only the first parameter advanced"),
+            mk("D3", ["()", "()", "()", "()", S], False, "only the last parameter advanced")]
+
+
 def run_ill_typed(ck, rows):
+    rows = rows + [r for r in default_rows() if not any(x["id"] == r["id"] for x in rows)]
     src, ranges = buildergen.gen_it(rows)
     with open(os.path.join(GEN, "src", "bin", "it.rs"), "w") as fh:
         fh.write(src)
@@ -138,6 +156,11 @@ def run_ill_typed(ck, rows):
         if rid is None:
             raise vlib.ToolError(f"rustc error outside every generated function (line {line}): {msg}")
         errs.setdefault(rid, []).append(msg)
+    if "D0" in errs:
+        # the hidden marker types are not where this group expects them (they are not public API):
+        # the group says nothing then
+        rows = [r for r in rows if not str(r["id"]).startswith("D")]
+        ck.assumptions.append("builder Default group skipped: the hidden type-state marker types could not be named")
     rejected = accepted = 0
     for r in rows:
         has = r["id"] in errs
